@@ -6,6 +6,12 @@
 #include <string.h>
 #include <stdint.h>
 #include <ogg/ogg.h>
+#include <signal.h>
+#include <sys/time.h>
+/* watchdog counted in CPU time of this process (user+system, all threads): a busy loop trips it,
+   machine load, a paused VM or a jumping wall clock do not */
+__attribute__((unused)) static void vc_watch_init(void (*h)(int)){ signal(SIGPROF,h); }
+__attribute__((unused)) static void vc_watch(int seconds){ struct itimerval it; memset(&it,0,sizeof it); it.it_value.tv_sec=seconds; setitimer(ITIMER_PROF,&it,NULL); }
 
 static int vc_hexval(int c){ return c<='9'?c-'0':(c|32)-'a'+10; }
 /* returns malloc'd buffer (len+1 bytes, NUL terminated), sets *len; "-" is empty */
